@@ -64,6 +64,12 @@ func (r Rounder) ShouldAddOne(result *BigInt, neg bool, half int) bool {
 // Round sets d to rounded x.
 func (r Rounder) Round(c *Context, d, x *Decimal, disableIfPrecisionZero bool) Condition {
 	d.Set(x)
+	if x.Form != Finite {
+		// Infinities and NaNs are not rounded. An infinity produced by an
+		// overflow still carries the coefficient and exponent of the finite
+		// value it replaced; they must not be interpreted again.
+		return 0
+	}
 	nd := x.NumDigits()
 	xs := x.Sign()
 	var res Condition
